@@ -147,7 +147,14 @@ static void run_kind(int k) {
     atomic_store(&producers_done, 0);
     if (k == K_MPSC) mpsc_fifo_init(&q_mpsc);
     else if (k == K_SPSC) spsc_fifo_init(&q_spsc);
-    else q_mpscr = mpscr_fifo_create((size_t)producers);
+    else {
+      q_mpscr = mpscr_fifo_create((size_t)producers);
+      if (vp_rand(&rng) & 1) {
+        // start the round-robin cursor just below 2^32: crossing it must be a non-event for a size_t counter
+        q_mpscr->counter = (size_t)0x100000000ULL - (size_t)(vp_rand(&rng) % 64) - 1;
+        vp_count("mpscr_rounds_crossing_2pow32", 1);
+      }
+    }
     int i;
     for (i = 0; i <= producers; ++i) vp_log_reset(&ds_w[i].log);
     ds_run_round(producers + 1, round_fn);
